@@ -14,6 +14,9 @@ mod fam_sem;
 mod fam_types;
 mod fam_adds;
 mod fam_roundtrip;
+mod fam_parse;
+mod fam_comp;
+mod parse_facts;
 
 use ctx::Ctx;
 
@@ -56,6 +59,8 @@ fn main() {
         "types" => fam_types::run(&mut ctx),
         "adds" => fam_adds::run(&mut ctx),
         "roundtrip" => fam_roundtrip::run(&mut ctx),
+        "parse" => fam_parse::run(&mut ctx),
+        "comp" => fam_comp::run(&mut ctx),
         x => {
             eprintln!("unknown family {x}");
             std::process::exit(2);
